@@ -15,6 +15,7 @@ use feos_core::parameter::{IdentifierOption, Parameter, ParameterHetero};
 use feos_core::{Contributions, PhaseEquilibrium, ReferenceSystem, SolverOptions, State};
 use feos_dft::adsorption::{ExternalPotential, Pore1D, PoreProfile1D, PoreSpecification};
 use feos_dft::interface::PlanarInterface;
+use feos_dft::solvation::PairCorrelation;
 use feos_dft::{DFTSolver, DFTSpecifications, Geometry};
 use ndarray::{arr1, Array1, Array2, Axis};
 use quantity::{Density, ANGSTROM, KELVIN, MOL};
@@ -154,6 +155,8 @@ pub enum Op {
 pub enum Kind {
     Interface { pdgt_init: bool, l_grid: f64 },
     Pore { geometry: u8, size: f64, eps_ss: f64, tf_bulk: f64, rho_f: f64 },
+    /// test-particle system (pair correlation function, self solvation free energy)
+    Pair { test_particle: usize, width: f64, tf_bulk: f64, rho_f: f64 },
 }
 
 #[derive(Serialize, Deserialize, Clone, Debug)]
@@ -183,6 +186,7 @@ pub(crate) fn build_solver(chain: &[Stage]) -> DFTSolver {
 enum Obj {
     Interface(Box<PlanarInterface<F>>),
     Pore(Box<PoreProfile1D<F>>),
+    Pair(Box<PairCorrelation<F>>),
 }
 
 impl Obj {
@@ -190,24 +194,28 @@ impl Obj {
         match self {
             Obj::Interface(i) => &i.profile,
             Obj::Pore(p) => &p.profile,
+            Obj::Pair(p) => &p.profile,
         }
     }
     fn profile_mut(&mut self) -> &mut feos_dft::DFTProfile<ndarray::Ix1, F> {
         match self {
             Obj::Interface(i) => &mut i.profile,
             Obj::Pore(p) => &mut p.profile,
+            Obj::Pair(p) => &mut p.profile,
         }
     }
     fn solve(&mut self, solver: Option<&DFTSolver>, debug: bool) -> feos_core::EosResult<()> {
         match self {
             Obj::Interface(i) => i.solve_inplace(solver, debug),
             Obj::Pore(p) => p.solve_inplace(solver, debug),
+            Obj::Pair(p) => p.solve_inplace(solver, debug),
         }
     }
     fn clone_obj(&self) -> Obj {
         match self {
             Obj::Interface(i) => Obj::Interface(i.clone()),
             Obj::Pore(p) => Obj::Pore(p.clone()),
+            Obj::Pair(p) => Obj::Pair(p.clone()),
         }
     }
     fn observable(&self) -> Option<RefObs> {
@@ -219,6 +227,10 @@ impl Obj {
             Obj::Pore(p) => p.grand_potential.map(|o| RefObs {
                 a: o.to_reduced(),
                 n: p.profile.moles().to_reduced().to_vec(),
+            }),
+            Obj::Pair(p) => p.self_solvation_free_energy.map(|o| RefObs {
+                a: o.to_reduced(),
+                n: p.structure_factor.into_iter().collect(),
             }),
         }
     }
@@ -247,7 +259,10 @@ pub(crate) fn guarded<T>(f: impl FnOnce() -> Result<T, String>) -> Result<T, Str
 
 fn bulk_state(sc: &Scenario, bulk_factor: f64) -> Result<State<F>, String> {
     let sys = &pool().systems[sc.system % pool().systems.len()];
-    let Kind::Pore { tf_bulk, rho_f, .. } = &sc.kind else { return Err("not a pore".into()) };
+    let (tf_bulk, rho_f) = match &sc.kind {
+        Kind::Pore { tf_bulk, rho_f, .. } | Kind::Pair { tf_bulk, rho_f, .. } => (tf_bulk, rho_f),
+        _ => return Err("no bulk state".into()),
+    };
     let moles = match sys.binary_x {
         None => arr1(&[1.0]) * MOL,
         Some(x) => arr1(&[x, 1.0 - x]) * MOL,
@@ -313,6 +328,15 @@ fn build_with_bulk(sc: &Scenario, bulk_factor: f64) -> Result<Obj, String> {
             .initialize(&bulk, None, None)
             .map(|p| Obj::Pore(Box::new(p)))
             .map_err(|e| format!("pore: {e}"))
+        }
+        Kind::Pair { test_particle, width, .. } => {
+            use feos_core::Components;
+            use feos_dft::HelmholtzEnergyFunctional;
+            if sys.func.component_index().len() != sys.func.components() {
+                return Err("no pair potential for heterosegmented functionals".into());
+            }
+            let bulk = bulk_state(sc, bulk_factor)?;
+            Ok(Obj::Pair(Box::new(PairCorrelation::new(&bulk, test_particle % sys.func.components(), sc.n_grid, *width * ANGSTROM))))
         }
     }
 }
@@ -439,6 +463,7 @@ fn execute(sc: &Scenario) -> RunOutcome {
                                 Kind::Pore { geometry: 0, .. } => "slit",
                                 Kind::Pore { geometry: 1, .. } => "cylinder",
                                 Kind::Pore { .. } => "sphere",
+                                Kind::Pair { .. } => "test-particle",
                             };
                             let _ = &stage;
                             let sig = if zeros {
@@ -549,6 +574,7 @@ fn execute(sc: &Scenario) -> RunOutcome {
                                     (ifc.profile.integrate(&(w + ifc.vle.vapor().pressure(Contributions::Total))) / quantity::Area::from_reduced(1.0)).to_reduced()
                                 }),
                                 Obj::Pore(pp) => pp.profile.grand_potential().ok().map(|o| o.to_reduced()),
+                                Obj::Pair(pc) => pc.profile.grand_potential_density().ok().map(|w| pc.profile.integrate(&(w + pc.profile.bulk.pressure(Contributions::Total))).to_reduced()),
                             };
                             if let (Some(rc), Some(o)) = (recomputed, obj.observable()) {
                                 let d = deviation(rc, o.a, 1e-300);
@@ -558,13 +584,16 @@ fn execute(sc: &Scenario) -> RunOutcome {
                                 }
                             }
                             // S4: path independence of position-independent observables
-                            let tight = last.map_or(true, |s| s.tol_exp >= 9.0);
+                            // (test-particle systems: the excess grand potential is integrated with weight r^2 over a
+                            // volume of 1e5 A^3 in which it almost cancels, so an absolute density error of 4.5e-9
+                            // (tolerance 1e-9) moves it by 5e-3; measured. Compared for tolerance 1e-11 only.)
+                            let tight = last.map_or(true, |s| s.tol_exp >= if matches!(sc.kind, Kind::Pair { .. }) { 11.0 } else { 9.0 });
                             // a profile with invalid densities has been reported above; its
                             // observables are not compared on top of that
                             if tight && spec_kind == 0 && bad == 0 {
                                 let intact = match &obj {
                                     Obj::Interface(ifc) => interface_intact(ifc),
-                                    Obj::Pore(_) => true,
+                                    Obj::Pore(_) | Obj::Pair(_) => true,
                                 };
                                 // below the critical temperature a pore can hold several stationary
                                 // profiles (capillary condensation hysteresis): no path independence
@@ -588,12 +617,14 @@ fn execute(sc: &Scenario) -> RunOutcome {
                                 } else if !same_bulk {
                                     out.count("probe.bulk_moved_by_particle_number_spec", 1);
                                 } else if let (Some(o), Some(r)) = (obj.observable(), reference(sc, bulk_factor)) {
-                                    let mut d = deviation(o.a, r.a, 1e-300);
+                                    // (the self solvation free energy is a cancelling integral of order kT that can be
+                                    // close to zero: judged on the scale of 1 kT)
+                                    let mut d = deviation(o.a, r.a, if matches!(obj, Obj::Pair(_)) { 1.0 } else { 1e-300 });
                                     for (a, b) in o.n.iter().zip(&r.n) {
                                         d = d.max(deviation(*a, *b, 1e-300));
                                     }
                                     out.max("observable_dev", d);
-                                    out.max(&format!("observable_dev.{}.n{}", if matches!(obj, Obj::Pore(_)) { "pore" } else { "interface" }, sc.n_grid), d);
+                                    out.max(&format!("observable_dev.{}.n{}", match obj { Obj::Pore(_) => "pore", Obj::Pair(_) => "pair", Obj::Interface(_) => "interface" }, sc.n_grid), d);
                                     out.count("oracle.path_independence_compared", 1);
                                     if d > 1e-6 && std::env::var("VERIF_DEBUG").is_ok() {
                                         eprintln!("DEV {d:e} {} last={:?} obs={o:?} ref={r:?}", what(i), last);
@@ -603,7 +634,8 @@ fn execute(sc: &Scenario) -> RunOutcome {
                                     // of the interface in the finite box and through the absolute residual
                                     // tolerance (measured on the pinned tree: <= 6e-5); anything a wrong
                                     // stationary point or a stale observable produces is far above 1e-3
-                                    if !(d <= 1e-3) {
+                                    // (test-particle systems: measured <= 6.8e-4 in 4000 histories, judged at 5e-3)
+                                    if !(d <= if matches!(obj, Obj::Pair(_)) { 5e-3 } else { 1e-3 }) {
                                         out.violate(
                                             "path-dependence",
                                             "observable",
@@ -643,6 +675,7 @@ fn execute(sc: &Scenario) -> RunOutcome {
                 match &mut obj {
                     Obj::Interface(ifc) => ifc.set_density_inplace(&init, *scale),
                     Obj::Pore(p) => p.profile.density = init,
+                    Obj::Pair(p) => p.profile.density = init,
                 }
                 out.count("op.restart", 1);
             }
@@ -739,6 +772,7 @@ impl Engine for C18 {
         let p = pool();
         let system = rng.below(p.systems.len());
         let pore = rng.chance(0.4);
+        let pair = !pore && rng.chance(0.25);
         let n_grid = match tier {
             Tier::Quick => *rng.pick(&[128usize, 256, 512]),
             Tier::Thorough => *rng.pick(&[128usize, 256, 512, 1024]),
@@ -756,6 +790,14 @@ impl Engine for C18 {
                 // quantifier); the others with a clearly supercritical fluid
                 tf_bulk: if rng.chance(0.33) { rng.uniform(0.7, 0.95) } else { rng.uniform(1.2, 1.5) },
                 rho_f: rng.uniform(0.05, 0.6),
+            }
+        } else if pair {
+            Kind::Pair {
+                test_particle: rng.below(2),
+                width: *rng.pick(&[20.0, 30.0, 40.0]),
+                // dilute vapor below T_c, anything from dilute gas to dense fluid above
+                tf_bulk: if rng.chance(0.3) { rng.uniform(0.7, 0.95) } else { rng.uniform(1.1, 1.6) },
+                rho_f: if rng.chance(0.5) { rng.uniform(0.05, 0.6) } else { rng.uniform(0.6, 2.2) },
             }
         } else {
             Kind::Interface {
@@ -840,14 +882,14 @@ impl Engine for C18 {
         v
     }
     fn rule(&self) -> String {
-        "one case = (functional, planar interface at T in [0.5, 0.93] T_c from tanh or pDGT, or slit/cylindrical/spherical LJ93 pore at a supercritical bulk state; grid 128..1024) + a history of 1..12 operations: solve with a chain of 1..4 picard/anderson/newton stages (log or not, seeded damping, mmax, GMRES budget, tol 1e-3..1e-11, max_iter 1..500), debug solve (partial commit), clone-and-continue, restart from the initial profile or an earlier solution (scaled or not), specification change; distinct = distinct operation lists; non-trivial = at least one solve executed.".into()
+        "one case = (functional, planar interface at T in [0.5, 0.93] T_c from tanh or pDGT, or slit/cylindrical/spherical LJ93 pore at a sub-saturation or supercritical bulk state, or test-particle system (pair correlation function, self solvation free energy) in a vapor, gas or dense fluid; grid 128..1024) + a history of 1..12 operations: solve with a chain of 1..4 picard/anderson/newton stages (log or not, seeded damping, mmax, GMRES budget, tol 1e-3..1e-11, max_iter 1..500), debug solve (partial commit), clone-and-continue, restart from the initial profile or an earlier solution (scaled or not), specification change; distinct = distinct operation lists; non-trivial = at least one solve executed.".into()
     }
     fn components(&self) -> Value {
         json!({
-            "real": ["feos-dft DFTProfile::solve, solver.rs (Picard, Anderson, Newton-GMRES), euler_lagrange_equation, PlanarInterface, Pore1D, convolver (rustfft/rustdct)", "PC-SAFT, PeTS, gc-PC-SAFT functionals"],
+            "real": ["feos-dft DFTProfile::solve, solver.rs (Picard, Anderson, Newton-GMRES), euler_lagrange_equation, PlanarInterface, Pore1D, PairCorrelation, convolver (rustfft/rustdct)", "PC-SAFT, PeTS, gc-PC-SAFT functionals"],
             "stub": ["getrandom(2) -> seeded"],
             "faults": ["interruption = iteration budget cut (stage ends unconverged / call returns Err)", "partial commit = debug=true"],
-            "not_exercised": ["2-D / 3-D geometries", "wall clock in DFTSolverLog (feeds no decision)"]
+            "not_exercised": ["2-D / 3-D geometries (SolvationProfile, Pore2D/3D)", "wall clock in DFTSolverLog (feeds no decision)"]
         })
     }
     fn assumptions(&self) -> Vec<String> {
